@@ -100,8 +100,9 @@ def run(chk):
                 chk.ground(f"{tag}.miss.solver_selected", bool(calls) and calls[0][0] == want, fn=fn, goal=f"solver selected by (method, alphaem_running) = {want}", detail=str([c[0] for c in calls]), replay=rp)
                 chk.ground(f"{tag}.miss.cached", len(obj.cache) == 1, fn=fn, goal="the miss stores exactly one entry")
                 key, stored = next(iter(obj.cache.items()))
-                chk.ground(f"{tag}.miss.result_not_aliased_with_cache", stored is not r1 and not np.shares_memory(stored, r1), fn=fn, goal="returned array is not the cached object", replay=rp)
-                chk.eq_array(f"{tag}.miss.cached_value_equals_result", stored, r1, fn=fn, goal="cache[key] == F(key)")
+                stored_before = tuple(stored)
+                chk.ground(f"{tag}.miss.result_not_aliased_with_cache", not _aliased(stored, r1), fn=fn, goal="returned array is not the cached object", replay=rp)
+                chk.eq_array(f"{tag}.miss.cached_value_equals_result", _vals(stored), r1, fn=fn, goal="cache[key] == F(key)")
                 # the key determines every argument handed to the solver
                 keyset = {T.lift(k).n for k in key if isinstance(k, (T.Sym, int, Q))}
                 need = {"a_ref[0]": as0, "a_ref[1]": aem0, "nf": nfv, "scale_from": frm, "scale_to": to}
@@ -115,10 +116,10 @@ def run(chk):
                 calls.clear()
                 r2 = obj.compute(np.array([as0, aem0], dtype=object), nfv, nlv, frm, to)
                 chk.ground(f"{tag}.hit.no_solver_call", len(calls) == 0, fn=fn, goal="a hit does not recompute")
-                chk.ground(f"{tag}.hit.fresh_object", r2 is not stored and not np.shares_memory(r2, stored) and r2 is not r1, fn=fn, goal="a hit returns a copy", replay=rp)
-                chk.eq_array(f"{tag}.hit.value", r2, stored, fn=fn, goal="hit value == cached value == F(key) although the earlier result was modified by the caller", replay=rp)
+                chk.ground(f"{tag}.hit.fresh_object", not _aliased(r2, stored) and r2 is not r1, fn=fn, goal="a hit returns a copy", replay=rp)
+                chk.eq_array(f"{tag}.hit.value", r2, _vals(stored), fn=fn, goal="hit value == cached value == F(key) although the earlier result was modified by the caller", replay=rp)
                 r2[1] = r2[1] + 1
-                chk.eq(f"{tag}.hit.cache_unchanged_after_caller_write", obj.cache[key][1], T.app(f"{want}_em", *[x for x in _flat(calls_args(want, as0, aem0, nfv, nlv, frm, to, obj))]) if False else stored[1], fn=fn, goal="cache unaffected by writes to returned arrays")
+                chk.ground(f"{tag}.hit.cache_unchanged_after_caller_write", all(T.lift(x).n == T.lift(y).n for x, y in zip(obj.cache[key], stored_before)) and len(obj.cache[key]) == len(stored_before), fn=fn, goal="cache unaffected by writes to returned arrays", replay=rp)
                 # a different query differs in the key
                 for nm, args in (("scale_to", (aref, nfv, nlv, frm, T.var("other_to"))), ("scale_from", (aref, nfv, nlv, T.var("other_from"), to)), ("nf", (aref, 5, nlv, frm, to)),
                                  ("a_ref", (np.array([T.var("as1"), aem0], dtype=object), nfv, nlv, frm, to))):
@@ -149,7 +150,7 @@ def run(chk):
                 results = []
                 for rnd in range(2 if warm else 1):
                     paths = chk.run_paths(f"{tag}.round{rnd}", lambda: obj.a(muf, nf_to), req + [r > 0 for r in obj.thresholds_ratios], fn=fn, replay=rp)
-                    snap = {k: v.copy() for k, v in obj.cache.items()}
+                    snap = {k: tuple(v) for k, v in obj.cache.items()}
                     results.append((paths, snap))
                 paths, snap = results[-1]
                 for pt, pc, res in paths[:1]:
@@ -163,7 +164,7 @@ def run(chk):
                         okc = okc and all(T.lift(x).n == T.lift(y).n for x, y in zip(v, exp))
                     chk.ground(f"{pt}.cache_values_are_F_of_key", bool(okc), fn=fn, goal="Inv: cached values equal F(key) after a() (the in-place matching factor did not reach the cache)", replay=rp)
                     chk.ground(f"{pt}.a_ref_unmodified", T.lift(obj.a_ref[0]).n == as0.n and T.lift(obj.a_ref[1]).n == aem0.n, fn=fn, goal="self.a_ref unmodified", replay=rp)
-                    chk.ground(f"{pt}.result_fresh", all(res is not v and not np.shares_memory(res, v) for v in obj.cache.values()) and res is not obj.a_ref, fn=fn, goal="result not aliased with cache or a_ref", replay=rp)
+                    chk.ground(f"{pt}.result_fresh", all(not _aliased(res, v) for v in obj.cache.values()) and res is not obj.a_ref, fn=fn, goal="result not aliased with cache or a_ref", replay=rp)
                 if warm and results[0][0] and results[1][0]:
                     first = {tuple(T.lift(b).n for b in pc): res for _, pc, res in results[0][0]}
                     for pt, pc, res in results[1][0]:
@@ -172,6 +173,15 @@ def run(chk):
                             chk.eq_array(f"{pt}.same_as_cold", res, ref, fn=fn, goal="warm-cache result == cold-cache result on the same path", replay=rp)
             finally:
                 couplings.couplings_expanded_fixed_alphaem = saved
+
+
+def _vals(v):
+    """the cached pair as an array, whatever container the cache uses for it (the ghost view of the cache is key -> (a_s, a_em))"""
+    return np.array(list(v), dtype=object)
+
+
+def _aliased(a, b):
+    return a is b or (isinstance(a, np.ndarray) and isinstance(b, np.ndarray) and np.shares_memory(a, b))
 
 
 def _flat(x):
